@@ -6,6 +6,7 @@ of the compiler's MIR (see DESIGN.md). Exit 0: every rule instance holds or is a
 known finding. Exit 1 + `VIOLATION property=<id> replay=<report>` otherwise.
 """
 import importlib
+import re as _re
 import json
 import os
 import sys
@@ -56,7 +57,6 @@ def run_property(prop, tier, repo="/repo", quiet=False):
         res = engine.run_rule(rid, ctx)
         flt = spec.get("filters", {}).get(rid)
         if flt:
-            import re as _re
             res = [r for r in res if _re.search(flt, r.key) or r.kind in ("anchor lost", "machinery error")]
         rules_run.append({"rule": rid, "instances": len(res), "holding": len([r for r in res if r.ok]),
                           "floor": engine.RULES[rid][1]["floor"], "doc": engine.RULES[rid][1]["doc"][:400]})
@@ -78,9 +78,12 @@ def run_property(prop, tier, repo="/repo", quiet=False):
                                          oracle="rules that do not concern overflow must not depend on the arithmetic mode"))
         for rid in spec.get("arith_rules", ()):
             if rid in engine.RULES:
+                flt = spec.get("filters", {}).get(rid)
                 for r in engine.run_rule(rid, ctx.release):
-                    r.key = r.key + "@release"
-                    insts.append(r)
+                    if flt and not (_re.search(flt, r.key) or r.kind in ("anchor lost", "machinery error")):
+                        continue
+                    r2 = engine.Inst(r.rule, r.key.split(":", 1)[1] + "@release", r.ok, r.site, r.fact, r.oracle, r.detail, r.kind)
+                    insts.append(r2)
     # fixtures: positive examples must fire (machinery self-check)
     try:
         import fixtures_check
